@@ -6,6 +6,7 @@ CaseBox gen_case(const std::string& property, const std::string& part, const std
   CaseBox cb;
   cb.property = property;
   if (property == "C12") { cb.engine = "c12"; cb.c12 = gen_c12(part, tier, seed, idx); return cb; }
+  if (property == "C19") { cb.engine = "c19"; cb.c19 = gen_c19(part, tier, seed, idx); return cb; }
   if (property == "C14" && (part == "enum" || part == "random")) { cb.engine = "c14a"; cb.c14a = gen_c14a(part, tier, seed, idx); return cb; }
   cb.engine = "conc";
   cb.conc = gen_conc(property, part == "hints" ? part : tier, seed, idx);
@@ -16,6 +17,7 @@ Outcome exec_case(CaseBox& cb, bool keep_log, Stats* stats) {
   if (cb.engine == "conc") return exec_conc(cb.conc, keep_log, stats);
   if (cb.engine == "c12") return exec_c12(cb.c12, keep_log, stats);
   if (cb.engine == "c14a") return exec_c14a(cb.c14a, keep_log, stats);
+  if (cb.engine == "c19") return exec_c19(cb.c19, keep_log, stats);
   Outcome o;
   Violation v; v.cls = "machinery:unknown-engine"; v.site = cb.engine;
   o.violations.push_back(v);
@@ -26,6 +28,7 @@ J case_to_json(const CaseBox& cb) {
   if (cb.engine == "conc") return conc_to_json(cb.conc);
   if (cb.engine == "c12") return c12_to_json(cb.c12);
   if (cb.engine == "c14a") return c14a_to_json(cb.c14a);
+  if (cb.engine == "c19") return c19_to_json(cb.c19);
   return cb.generic;
 }
 
@@ -35,6 +38,7 @@ bool case_from_json(const J& j, CaseBox* cb) {
   if (cb->engine == "conc") return conc_from_json(j, &cb->conc);
   if (cb->engine == "c12") return c12_from_json(j, &cb->c12);
   if (cb->engine == "c14a") return c14a_from_json(j, &cb->c14a);
+  if (cb->engine == "c19") return c19_from_json(j, &cb->c19);
   cb->generic = j;
   return !cb->engine.empty();
 }
@@ -61,6 +65,7 @@ namespace sim {
 int64_t part_size(const std::string& property, const std::string& part, const std::string& tier) {
   if (property == "C12") return c12_part_size(part, tier);
   if (property == "C14") return c14a_part_size(part, tier);
+  if (property == "C19") return c19_part_size(part, tier);
   return -1;
 }
 }  // namespace sim
